@@ -10,7 +10,7 @@ VERUS = os.environ.get('VERUS', 'verus')
 # messages that mean "a proof obligation was generated and the solver could not discharge it"
 FAIL_PATTERNS = [
     ('postcondition', r'^postcondition not satisfied|unable to prove post-?condition of closure'),
-    ('invariant', r'^invariant not satisfied'),
+    ('invariant', r'^invariant not satisfied|^loop invariant not satisfied'),
     ('loop-ensures', r'loop ensures|^loop invariant .* not'),
     ('assertion', r'^assertion failed|^assert(ion)? .*failed'),
     ('precondition', r'^precondition not satisfied'),
@@ -103,6 +103,20 @@ def classify(res, origin, lines):
             undecided.append(dict(rec, reason='not a proof-obligation failure (compiler error, unsupported construct, resource limit)'))
         else:
             failures.append(rec)
+    # A resource-limit / time-out diagnostic inside a function makes every other failure reported for
+    # that function unreliable (the solver gave up, it did not refute anything): undecided, never an alarm.
+    gave_up_items = set()
+    for u in undecided:
+        if re.search(r'rlimit|[Rr]esource limit|timed? ?out', u.get('message', '') or ''):
+            gave_up_items.add(((u.get('where') or {}).get('origin') or {}).get('item'))
+    if gave_up_items:
+        keep = []
+        for f in failures:
+            if ((f.get('where') or {}).get('origin') or {}).get('item') in gave_up_items:
+                undecided.append(dict(f, reason='reported together with a resource-limit diagnostic in the same function'))
+            else:
+                keep.append(f)
+        failures = keep
     summ = res['summary'] or {}
     vr = summ.get('verification-results', {})
     stats = {'verified': vr.get('verified'), 'errors': vr.get('errors'), 'success': vr.get('success')}
